@@ -162,6 +162,10 @@ class mapper(object):
 
     def R(self, x):
         "get the expression of register x"
+        if x._is_slc:
+            # a register slice is not a key of the map: read it out of the
+            # current value of the sliced register (not the initial one)
+            return x.eval(self)
         return self.__map.get(x, x)
 
     def M(self, k):
